@@ -6,6 +6,7 @@ package harness
 import (
 	"io"
 	"net"
+	"runtime"
 	"sync"
 	"time"
 )
@@ -122,7 +123,14 @@ func (m *simMux) GetConn(ufrag string, addr net.Addr) (net.PacketConn, error) {
 
 	return c, nil
 }
-func (m *simMux) RemoveConnByUfrag(string) {}
+
+// RemoveConnByUfrag takes a moment (no virtual time, only the processor): the agent calls it while it releases a failed or
+// restarted session, and whatever the agent has already handed to other goroutines by then gets the chance to run.
+func (m *simMux) RemoveConnByUfrag(string) {
+	for i := 0; i < 200; i++ {
+		runtime.Gosched()
+	}
+}
 func (m *simMux) GetListenAddresses() []net.Addr {
 	r := []net.Addr{}
 	for _, a := range m.addrs {
